@@ -2,7 +2,7 @@
 import json
 import os
 
-HOOK_COMMITS = ["b71293f", "23e6bda", "0c7fa88", "26fcdfb", "23e5169", "a96f1b4"]
+HOOK_COMMITS = ["b71293f", "23e6bda", "0c7fa88", "a3d5066", "761a9c4"]
 
 CHECKS = {
     "C01": dict(
